@@ -213,11 +213,21 @@ def gen_poolmix(seed, tier, o):
                 scn["cancel"] = {"caller": f"c{ci}", "kind": kind,
                                  "timing": r.choice(["early", "late"]),
                                  "step": r.randint(1, 60)}
+    elif ex == "trio":
+        scn["tick"] = 0.0
+        if o.get("cancels") and r.random() < 0.7:
+            ci = r.randrange(n_callers)
+            if r.random() < 0.3:
+                scn["cancel"] = {"caller": f"c{ci}", "kind": "deadline",
+                                 "t": r.choice([0.0, 0.001, 0.01, 0.05, 0.2, 1.0])}
+            else:
+                scn["cancel"] = {"caller": f"c{ci}", "kind": "scope", "timing": "early",
+                                 "step": r.randint(1, 60)}
     else:
         scn["policy"] = r.choice(o.get("policies", [
             {"mode": "ops", "op_p": 0.5}, {"mode": "lines", "p": 0.02},
             {"mode": "lines", "p": 0.1}, {"mode": "lines", "p": 0.3}]))
-    if r.random() < 0.3:
+    if r.random() < 0.3 and ex != "trio":
         scn["tick"] = 1e-9
     return scn
 
